@@ -12,7 +12,10 @@ import (
 	ocispec "github.com/opencontainers/image-spec/specs-go/v1"
 	oras "oras.land/oras-go/v2"
 	"oras.land/oras-go/v2/content"
+	"oras.land/oras-go/v2/content/file"
 	"oras.land/oras-go/v2/content/memory"
+	"oras.land/oras-go/v2/content/oci"
+	"oras.land/oras-go/v2/errdef"
 	"verif/harness/vh"
 )
 
@@ -31,7 +34,10 @@ type Scenario struct {
 	RefDst  bool          `json:"refdst"`  // destination is a ReferencePusher
 	MapRoot int           `json:"maproot"` // 0: none, else node the root is mapped to
 	Faults  []Fault       `json:"faults"`
-	Cancel  int           `json:"cancel"` // cancel the context at this gate step (0: never)
+	Cancel  int           `json:"cancel"` // cancel the context at this gate step (0: never, -1: before the call)
+	CMode   string        `json:"cmode"`  // "" / "before": before releasing the step's operation; "after": after its effect
+	SrcKind string        `json:"srckind"` // memory (default) | oci
+	DstKind string        `json:"dstkind"` // memory (default) | oci | file
 	CbErr   []Fault       `json:"cberr"`  // callback errors: op in pre post skipped
 	Prefix  []int         `json:"prefix"` // schedule: choice per step, then seeded random
 	Seed    int64         `json:"seed"`
@@ -59,21 +65,27 @@ func RunOne(t *testing.T, sc *Scenario, tr *vh.Tracer) Result {
 	tr.Begin(sc.ID)
 	synctest.Test(t, func(t *testing.T) {
 		bg := context.Background()
-		src := memory.New()
+		src, err := newSrc(t, sc.SrcKind)
+		if err != nil {
+			t.Fatal(err)
+		}
 		for k := 1; k <= g.N; k++ {
 			if g.Nodes[k].Kind == "foreign" {
 				continue // foreign layers are not in the source either
 			}
-			if err := src.Push(bg, g.Descs[k], bytes.NewReader(g.Blobs[k])); err != nil {
+			if err := src.Push(bg, g.Descs[k], bytes.NewReader(g.Blobs[k])); err != nil && !errors.Is(err, errdef.ErrAlreadyExists) {
 				t.Fatalf("scenario %d: src push %d: %v", sc.ID, k, err)
 			}
 		}
 		if err := src.Tag(bg, g.Descs[sc.Root], srcRef); err != nil {
 			t.Fatal(err)
 		}
-		dstm := memory.New()
+		dstm, err := newDst(t, sc.DstKind)
+		if err != nil {
+			t.Fatal(err)
+		}
 		for _, k := range sc.Dst0 {
-			if err := dstm.Push(bg, g.Descs[k], bytes.NewReader(g.Blobs[k])); err != nil {
+			if err := dstm.Push(bg, g.Descs[k], bytes.NewReader(g.Blobs[k])); err != nil && !errors.Is(err, errdef.ErrAlreadyExists) {
 				t.Fatalf("scenario %d: dst0 push %d: %v", sc.ID, k, err)
 			}
 		}
@@ -97,8 +109,9 @@ func RunOne(t *testing.T, sc *Scenario, tr *vh.Tracer) Result {
 			fl = append(fl, []any{f.Op, f.Node, "cb"})
 		}
 		tr.Emit(map[string]any{"e": "init", "n": g.N, "succ": succ, "all": all, "kinds": kinds, "root": sc.Root,
-			"dst0": vh.Ints(sc.Dst0), "c": sc.C, "api": sc.API, "depth": sc.Depth, "dstref": sc.DstRef,
-			"refdst": sc.RefDst, "maproot": sc.MapRoot, "faults": fl, "cancel": sc.Cancel})
+			"dst0": dw.has(), "c": sc.C, "api": sc.API, "depth": sc.Depth, "dstref": sc.DstRef,
+			"refdst": sc.RefDst, "maproot": sc.MapRoot, "faults": fl, "cancel": sc.Cancel, "cmode": sc.CMode,
+			"srckind": kindOr(sc.SrcKind), "dstkind": kindOr(sc.DstKind)})
 
 		cb := func(kind string) func(context.Context, ocispec.Descriptor) error {
 			return func(_ context.Context, d ocispec.Descriptor) error {
@@ -160,6 +173,13 @@ func RunOne(t *testing.T, sc *Scenario, tr *vh.Tracer) Result {
 		}()
 		rng := rand.New(rand.NewSource(sc.Seed))
 		cancelled := false
+		precancel := 0
+		if sc.Cancel == -1 {
+			cancelled = true
+			precancel = 1
+			tr.Emit(map[string]any{"e": "cancel"})
+			cancel()
+		}
 		hang := s.Run(done, func(step int, pend []*vh.Op) int {
 			if i := len(s.Choices); i < len(sc.Prefix) {
 				return sc.Prefix[i]
@@ -169,10 +189,19 @@ func RunOne(t *testing.T, sc *Scenario, tr *vh.Tracer) Result {
 			}
 			return rng.Intn(len(pend))
 		}, func(step int, pend []*vh.Op) bool {
-			if sc.Cancel != 0 && step == sc.Cancel && !cancelled {
+			if sc.Cancel > 0 && step == sc.Cancel && !cancelled {
 				cancelled = true
-				tr.Emit(map[string]any{"e": "cancel"})
-				cancel()
+				if sc.CMode == "after" {
+					e.mu.Lock()
+					e.cancelAfter = func() {
+						tr.Emit(map[string]any{"e": "cancel"})
+						cancel()
+					}
+					e.mu.Unlock()
+				} else {
+					tr.Emit(map[string]any{"e": "cancel"})
+					cancel()
+				}
 			}
 			return false
 		})
@@ -192,7 +221,7 @@ func RunOne(t *testing.T, sc *Scenario, tr *vh.Tracer) Result {
 			fired := e.fired
 			e.mu.Unlock()
 			res.Err = callErr
-			tr.Emit(map[string]any{"e": "ret", "err": callErr != nil, "root": rootN, "fired": fired + b2i(cancelled),
+			tr.Emit(map[string]any{"e": "ret", "err": callErr != nil, "root": rootN, "fired": fired + precancel, "cancelled": cancelled,
 				"msg": errMsg(callErr), "cberr": errors.Is(callErr, errCallback)})
 		}
 		// retry without faults on the same destination when the call failed
@@ -232,10 +261,46 @@ func RunOne(t *testing.T, sc *Scenario, tr *vh.Tracer) Result {
 		if d, err := dstm.Resolve(bg, ref); err == nil {
 			tagN = g.NodeOf(d)
 		}
-		tr.Emit(map[string]any{"e": "final", "has": dw.has(), "bytesok": vh.Ints(bytesok), "tag": tagN})
+		tr.Emit(map[string]any{"e": "final", "has": dw.has(), "bytesok": vh.Ints(bytesok), "tag": tagN, "dangling": dw.dangling()})
 	})
 	sc.Choices = res.Choices
 	return res
+}
+
+func kindOr(k string) string {
+	if k == "" {
+		return "memory"
+	}
+	return k
+}
+
+type srcStore interface {
+	content.Storage
+	content.PredecessorFinder
+	content.TagResolver
+}
+
+func newSrc(t *testing.T, kind string) (srcStore, error) {
+	switch kind {
+	case "oci":
+		return oci.New(t.TempDir())
+	}
+	return memory.New(), nil
+}
+
+type dstStore interface {
+	content.Storage
+	content.TagResolver
+}
+
+func newDst(t *testing.T, kind string) (dstStore, error) {
+	switch kind {
+	case "oci":
+		return oci.New(t.TempDir())
+	case "file":
+		return file.New(t.TempDir())
+	}
+	return memory.New(), nil
 }
 
 func b2i(b bool) int {
